@@ -14,6 +14,7 @@ pub mod containers;
 pub mod malformed;
 pub mod schemaread;
 pub mod abi;
+pub mod collections;
 
 #[macro_use]
 mod reg;
